@@ -13,6 +13,9 @@
 # them, nesting depth 2 (3 in the thorough tier)) inside Fetch responses, with the compression oracle recorded from
 # the real gzip calls (codec_lib.Recorder), and a hostile stream (truncations, mutations, nulls where the grammar
 # has none, hostile counts) that is compared with the model only.
+# Also: the encoder steps of afkak (_encode_message_set, create_gzip_message) against Model.MsgSet through the runner
+# `codec` (they are what the theorems C05_afkak_* / C05_producer_* speak about), and the compression round-trip law
+# (the hypothesis of the message-set theorems) observed on the real afkak.codec.gzip_encode / gzip_decode.
 import random
 
 import vlib
@@ -597,6 +600,16 @@ def mutations(rnd, data, n):
 
 
 # ------------------------------------------------------------------ the check
+def correspond_chunks(ck, model, module, cases, impl, label, nontrivial, describe, chunk=3000):
+    """ck.correspond in chunks (each run of the extracted model has its own timeout); indices are global"""
+    diffs, mo = [], []
+    for a in range(0, max(len(cases), 1), chunk):
+        d, m = ck.correspond(model, module, cases[a:a + chunk], impl[a:a + chunk], label, nontrivial=nontrivial, describe=describe)
+        diffs += [a + i for i in d]
+        mo += m
+    return diffs, mo
+
+
 def describe(c):
     return {"op": c[0], "line": c[:48]}
 
@@ -608,7 +621,7 @@ def run(ck):
     rnd = random.Random(ck.seed)
     g = Gen(rnd)
     thorough = ck.tier == "thorough"
-    scale = 1 if not thorough else 25
+    scale = 1 if not thorough else 50
     per_api = 40 * scale
 
     # ================= 1. well-formed responses of every API/version
@@ -651,10 +664,10 @@ def run(ck):
     for nb in (1024, 1025):
         r = (9, [(i, b"h", 9092) for i in range(nb)], [])
         add("metadata", r, 0, None, expected("metadata", r) if nb <= 1024 else [5], label="metadata_%d_brokers" % nb)
-    r = (2, [(b"big", [(p, 0, p * 10, p) for p in range(300 if not thorough else 3000)])], 7)
+    r = (2, [(b"big", [(p, 0, p * 10, p) for p in range(300 if not thorough else 1500)])], 7)
     add("produce", r, 2, None, expected("produce", r), label="produce_many_partitions")
     # wide shapes for every counted loop: many topics, many partitions, many members / offsets / replicas / keys
-    W = 40 if not thorough else 400
+    W = 40 if not thorough else 120
     wide = {
         "produce": (1, [(b"t%d" % i, [(i, 0, i, i)]) for i in range(W)] + [(b"w", [(p, g.err(), g.i64(), g.i64()) for p in range(W)])], 3),
         "fetch": (1, 2, [(b"t%d" % i, [(i, 0, i, None)]) for i in range(W)] + [(b"w", [(p, g.err(), g.i64(), b"") for p in range(W)])]),
@@ -833,7 +846,7 @@ def run(ck):
         add(api, None, ver, d, None, label=api + "_" + label, monitor=False)
 
     # ================= 4. correspondences
-    diffs, mo = ck.correspond(MODEL, MODULE, spec_cases + tree_cases, spec_impl + tree_impl,
+    diffs, mo = correspond_chunks(ck, MODEL, MODULE, spec_cases + tree_cases, spec_impl + tree_impl,
                               "grammar encoder harness/kafkaspec_resp.py vs Model.KafkaSpecResp (bytes identical)",
                               nontrivial=lambda c, o: len(o) > 6, describe=describe)
     for i in diffs[:2]:
@@ -846,9 +859,9 @@ def run(ck):
     def nontrivial(c, o):
         return len(o) > 2 and (o[0] > 0)
 
-    d1, mo1 = ck.correspond(MODEL, MODULE, dec_cases[:nwf], dec_impl[:nwf],
+    d1, mo1 = correspond_chunks(ck, MODEL, MODULE, dec_cases[:nwf], dec_impl[:nwf],
                             "KafkaCodec.decode_* on well-formed responses vs Model.Responses", nontrivial=nontrivial, describe=describe)
-    d2, mo2 = ck.correspond(MODEL, MODULE, dec_cases[nwf:], dec_impl[nwf:],
+    d2, mo2 = correspond_chunks(ck, MODEL, MODULE, dec_cases[nwf:], dec_impl[nwf:],
                             "KafkaCodec.decode_* on hostile bytes (truncated, mutated, nulls, bad counts) vs Model.Responses",
                             nontrivial=lambda c, o: True, describe=describe)
     mo_all = mo1 + mo2
